@@ -214,11 +214,11 @@ def run(tier: str) -> int:
     ck.cov["rule"] = ("A: Recursion.tla — every assignment of one edge (none/include/render/extends/extends+block+include/call) per template "
                       "over 2 (thorough 3) templates with the edge at block depth 0/12/29 (thorough +5,20); expected status from the model; rendered "
                       "sync+async under a %ds CPU-time alarm. B: BlockParser.tla token sequences parsed+rendered under strict/warn/lax under the same alarm" % ALARM)
-    L = 4 if tier == "quick" else 5
+    L = 4
     jobs_tlc, names = [], []
     try:
-        rec = gen_cfg("cfg/Recursion.tmpl", dict(Templates='{"t1","t2"}' if tier == "quick" else '{"t1","t2","t3"}',
-                                                 Depths="{0, 12, 29}" if tier == "quick" else "{0, 5, 12, 29}", Extra="INVARIANT Emit"), "rec")
+        rec = gen_cfg("cfg/Recursion.tmpl", dict(Templates='{"t1","t2"}',
+                                                 Depths="{0, 12, 29}" if tier == "quick" else "{0, 5, 12, 20, 29}", Extra="INVARIANT Emit"), "rec")
         live = gen_cfg("cfg/Recursion.tmpl", dict(Templates='{"t1","t2"}', Depths="{0, 12}", Extra="PROPERTY Terminates"), "reclive")
         jobs_tlc = [("Recursion", rec, dict(workers=1, timeout=3000)), ("Recursion", live, dict(workers=4, timeout=900))]
         for nm, (alpha, extra) in c21.ALPHABETS.items():
@@ -260,7 +260,7 @@ def run(tier: str) -> int:
                 break
     # stack window: graphs whose cut-off is the interpreter's stack, replayed from every caller depth of a period
     win = [c for c in rrec.emitted if c.get("cut") == "stack"]
-    capw = 24 if tier == "quick" else 120
+    capw = 24 if tier == "quick" else 72
     if len(win) > capw:
         win = rnd.sample(win, capw)
     for case, (tmpl, bad) in zip(win, par.pmap(replay_window, win, chunk=2)):
